@@ -223,3 +223,254 @@ func ruleNoFixedScratchAppend(r *Run, p *Prog, rule string, reach map[*ssa.Funct
 	r.Ob(rule, "fast-path/fixed-scratch", "-", n >= 100, false, fmt.Sprintf("%d fast-path functions examined: none appends into a fixed-size local array", n))
 }
 
+
+// ---------- rules written after the fourteenth seeding batch (DESIGN 10.25) ----------
+
+// ruleContextHookBuildersUnconditional (HOOKS registers-on-every-path): a method of Context that
+// registers a hook (Timestamp, Caller, CallerWithSkipFrameCount) does so on every path — a "skip
+// when such a hook is already inherited" shortcut makes the registration run zero times and the
+// field it adds loses its place in the layout.
+func ruleContextHookBuildersUnconditional(r *Run, p *Prog, rule string) {
+	hook := p.Method("", "Logger", "Hook")
+	if !r.Anchor(hook != nil, rule, "Logger.Hook") {
+		return
+	}
+	n := 0
+	for _, m := range p.Methods("", "Context", true) {
+		v := p.View(m, "hookkeep", func(f *ssa.Function) bool { return f == hook })
+		isHook := func(in ssa.Instruction) bool {
+			c, ok := in.(*ssa.Call)
+			return ok && staticCallee(&c.Call) == hook
+		}
+		has := false
+		eachInstr(v, func(b *ssa.BasicBlock, i int, in ssa.Instruction) {
+			if isHook(in) {
+				has = true
+			}
+		})
+		if !has {
+			continue
+		}
+		n++
+		found, _ := pathExists(v, nil, func(in ssa.Instruction) bool { _, ok := in.(*ssa.Return); return ok }, isHook, nil)
+		r.Ob(rule, FnName(m)+"/registers-on-every-path", p.Pos(m.Pos()), !found, true, tern(!found, "every return follows the Logger.Hook call", FnName(m)+" can return without registering its hook (a shortcut in front of Logger.Hook): that registration runs zero times, and the field it stands for is missing from, or misplaced in, the events of the derived logger"))
+	}
+	r.Ob(rule, "context-hook-builders", "-", n >= 2, false, fmt.Sprintf("%d Context methods that register a hook examined", n))
+}
+
+// ruleNewKeepsItsWriter (FANOUT keeps-its-writer): the Logger built by New writes to the very
+// writer it was given (asserted to LevelWriter or wrapped in the adapter) — not to something read
+// out of it (a single-destination shortcut that unwraps a MultiLevelWriter drops the wrapper's
+// short-write and error handling).
+func ruleNewKeepsItsWriter(r *Run, p *Prog, rule string) {
+	nw := p.Func("", "New")
+	if !r.Anchor(nw != nil, rule, "zerolog.New") {
+		return
+	}
+	v := p.View(nw, "", nil)
+	var okVal func(x ssa.Value, depth int, seen map[ssa.Value]bool) (bool, string)
+	okVal = func(x ssa.Value, depth int, seen map[ssa.Value]bool) (bool, string) {
+		if seen[x] || depth > 40 {
+			return true, ""
+		}
+		seen[x] = true
+		switch y := x.(type) {
+		case *ssa.Parameter, *ssa.Const, *ssa.Global:
+			return true, ""
+		case *ssa.Phi:
+			for _, e := range y.Edges {
+				if ok, why := okVal(e, depth+1, seen); !ok {
+					return false, why
+				}
+			}
+			return true, ""
+		case *ssa.TypeAssert:
+			return okVal(y.X, depth+1, seen)
+		case *ssa.Extract:
+			return okVal(y.Tuple, depth+1, seen)
+		case *ssa.MakeInterface:
+			return okVal(y.X, depth+1, seen)
+		case *ssa.ChangeInterface:
+			return okVal(y.X, depth+1, seen)
+		case *ssa.ChangeType:
+			return okVal(y.X, depth+1, seen)
+		case *ssa.UnOp:
+			if y.Op == token.MUL {
+				switch a := y.X.(type) {
+				case *ssa.Global:
+					return true, ""
+				case *ssa.Alloc:
+					// a local composite: everything stored into it (or its fields) is judged
+					for _, ref := range referrersOf(a) {
+						switch s := ref.(type) {
+						case *ssa.Store:
+							if s.Addr == ssa.Value(a) {
+								if ok, why := okVal(s.Val, depth+1, seen); !ok {
+									return false, why
+								}
+							}
+						case *ssa.FieldAddr:
+							for _, r2 := range referrersOf(s) {
+								if st, isSt := r2.(*ssa.Store); isSt && st.Addr == ssa.Value(s) {
+									if ok, why := okVal(st.Val, depth+1, seen); !ok {
+										return false, why
+									}
+								}
+							}
+						}
+					}
+					return true, ""
+				}
+			}
+		}
+		return false, descr(x)
+	}
+	n := 0
+	eachInstr(v, func(b *ssa.BasicBlock, i int, in ssa.Instruction) {
+		st, ok := in.(*ssa.Store)
+		if !ok {
+			return
+		}
+		fa, ok := st.Addr.(*ssa.FieldAddr)
+		if !ok || fieldVar(fa) == nil || fname(fieldVar(fa)) != "w" {
+			return
+		}
+		if nt, isN := derefType(fa.X.Type()).(*types.Named); !isN || nt.Obj().Name() != "Logger" {
+			return
+		}
+		n++
+		ok2, why := okVal(st.Val, 0, map[ssa.Value]bool{})
+		r.Ob(rule, FnName(nw)+"/keeps-its-writer", p.Pos(st.Pos()), ok2, true, tern(ok2, "Logger.w is the writer given to New (asserted to LevelWriter or wrapped in the adapter)", "New stores a writer derived from "+why+" instead of the one it was given: whatever the given writer does around its destinations (short-write detection, error routing, fan-out, Close) is bypassed"))
+	})
+	if n == 0 {
+		r.Fail(rule, FnName(nw)+"/keeps-its-writer", p.Pos(nw.Pos()), "no store to Logger.w found in New (undecided, fail closed)")
+	}
+}
+
+// rulePassThroughWritesOnce (A3 one-call-per-event): the pass-through wrappers hand one event to
+// the underlying writer with one call — no retry loop that delivers the rest of a short write as
+// a second, partial Write (a fragment that is not a JSON object).
+func rulePassThroughWritesOnce(r *Run, p *Prog, rule string) {
+	n := 0
+	for _, tm := range [][2]string{{"LevelWriterAdapter", "WriteLevel"}, {"syncWriter", "Write"}, {"syncWriter", "WriteLevel"}} {
+		m := p.Method("", tm[0], tm[1])
+		if m == nil {
+			continue
+		}
+		v := p.View(m, "", nil)
+		isW := func(in ssa.Instruction) bool {
+			c, ok := in.(*ssa.Call)
+			return ok && c.Call.IsInvoke() && (c.Call.Method.Name() == "Write" || c.Call.Method.Name() == "WriteLevel")
+		}
+		var calls []ssa.Instruction
+		eachInstr(v, func(b *ssa.BasicBlock, i int, in ssa.Instruction) {
+			if isW(in) {
+				calls = append(calls, in)
+			}
+		})
+		n++
+		bad := token.NoPos
+		for _, c := range calls {
+			if again, _ := pathExists(v, c, isW, nil, nil); again && bad == token.NoPos {
+				bad = c.Pos()
+			}
+		}
+		r.Ob(rule, FnName(m)+"/one-call-per-event", p.Pos(tern2(bad != token.NoPos, bad, m.Pos())), bad == token.NoPos && len(calls) > 0, true, tern(bad == token.NoPos && len(calls) > 0, "every path hands the event to the underlying writer with at most one call", tern(len(calls) == 0, "the wrapper never calls the underlying writer", "a path of "+FnName(m)+" calls the underlying writer more than once for one event (a retry of a short write): the destination receives a fragment that is not a complete event")))
+	}
+	r.Ob(rule, "pass-through/one-call-per-event", "-", n >= 3, false, fmt.Sprintf("%d pass-through methods examined", n))
+}
+
+func tern2(c bool, a, b token.Pos) token.Pos {
+	if c {
+		return a
+	}
+	return b
+}
+
+// ruleCloseCoversWrittenFields (FATAL close-covers): in the writer wrappers, every field through
+// which a method writes (invoke of Write/WriteLevel) is also offered to io.Closer by Close — a
+// wrapper that writes through one field and closes through another (left nil for plain writers)
+// never closes, and a diode behind it is never drained.
+func ruleCloseCoversWrittenFields(r *Run, p *Prog, rule string) {
+	n := 0
+	for _, tn := range []string{"LevelWriterAdapter", "syncWriter", "FilteredLevelWriter"} {
+		cl := p.Method("", tn, "Close")
+		if cl == nil {
+			continue
+		}
+		written := map[string]token.Pos{}
+		for _, m := range p.Methods("", tn, false) {
+			if m == cl {
+				continue
+			}
+			eachInstr(p.View(m, "", nil), func(b *ssa.BasicBlock, i int, in ssa.Instruction) {
+				if c, ok := in.(*ssa.Call); ok && c.Call.IsInvoke() && (c.Call.Method.Name() == "Write" || c.Call.Method.Name() == "WriteLevel") {
+					if fv, _ := loadedField(c.Call.Value); fv != nil {
+						written[fname(fv)] = c.Pos()
+					}
+				}
+			})
+		}
+		closed := map[string]bool{}
+		eachInstr(p.View(cl, "", nil), func(b *ssa.BasicBlock, i int, in ssa.Instruction) {
+			switch x := in.(type) {
+			case *ssa.TypeAssert:
+				if fv, _ := loadedField(x.X); fv != nil {
+					closed[fname(fv)] = true
+				}
+			case *ssa.Call:
+				if x.Call.IsInvoke() && x.Call.Method.Name() == "Close" {
+					if fv, _ := loadedField(x.Call.Value); fv != nil {
+						closed[fname(fv)] = true
+					}
+				}
+			}
+		})
+		for f, pos := range written {
+			n++
+			r.Ob(rule, FnName(cl)+"/close-covers:"+f, p.Pos(pos), closed[f], true, tern(closed[f], "the field written through is offered to io.Closer by Close", tn+" writes through field "+f+" but Close never looks at it: for writers held only there Close does nothing, and a buffering writer (a diode) behind the wrapper is never drained on Close or Fatal"))
+		}
+	}
+	r.Ob(rule, "wrappers/close-covers", "-", n >= 3, false, fmt.Sprintf("%d written-through fields of writer wrappers examined", n))
+}
+
+// ruleFrontEndConversions (A6 front-end): the Event/Array/Context methods hand the logged integer
+// to the encoder as it is or through a value-preserving conversion — a shared `appendInt(int64(i))`
+// helper behind Uint()/Uint64() turns values from 1<<63 into negative numbers.
+func ruleFrontEndConversions(r *Run, p *Prog, rule string) {
+	nM, nC := 0, 0
+	for _, tn := range []string{"Event", "Array", "Context"} {
+		for _, m := range p.Methods("", tn, true) {
+			var ints []*ssa.Parameter
+			for _, pa := range m.Params[1:] {
+				if isIntLike(pa.Type()) {
+					ints = append(ints, pa)
+				}
+			}
+			if len(ints) == 0 {
+				continue
+			}
+			nM++
+			eachInstr(m, func(b *ssa.BasicBlock, i int, in ssa.Instruction) {
+				cv, ok := in.(*ssa.Convert)
+				if !ok || !isIntLike(cv.Type()) || !isIntLike(cv.X.Type()) {
+					return
+				}
+				direct := false
+				for _, pa := range ints {
+					if cv.X == ssa.Value(pa) {
+						direct = true
+					}
+				}
+				if !direct {
+					return
+				}
+				nC++
+				okc := valuePreserving(cv.X.Type(), cv.Type(), p.sizes)
+				r.Ob(rule, FnName(m)+"/front-end-conv:"+types.TypeString(cv.X.Type(), shortQual)+"→"+types.TypeString(cv.Type(), shortQual), p.Pos(cv.Pos()), okc, true,
+					tern(okc, "value-preserving widening of the logged integer", FnName(m)+" converts the logged "+types.TypeString(cv.X.Type(), shortQual)+" to "+types.TypeString(cv.Type(), shortQual)+" before it reaches the encoder: values outside the target's range are encoded as different numbers"))
+			})
+		}
+	}
+	r.Ob(rule, "front-end/int-methods", "-", nM >= 30, false, fmt.Sprintf("%d front-end methods with an integer parameter examined, %d direct conversions", nM, nC))
+}
